@@ -39,7 +39,8 @@ def pBlocks : P (List Blk) := do
   if bs.any (fun b => b.1 < 0 ∨ b.2 < 0) then throw "negative coordinate" else
   pure (bs.map fun b => (b.1.toNat, b.2.toNat))
 
-def ops : List (String × Op) := [
+/-- `repaired = false`: the code as it is; `true`: with the repair of F-C14a -/
+def opsFor (repaired : Bool) : List (String × Op) := [
   ("bed12", do
       let kind ← tok
       let st ← pStrand
@@ -55,10 +56,15 @@ def ops : List (String × Op) := [
       match mkIv exons st (if cds.isEmpty then none else some cds) seqName symbol ident par with
       | .error e => pure ("err " ++ showErr e)
       | .ok x =>
-        let out := if kind = "T" then txToBed12 x score (r, g, b) sel chromRel
-                   else featToBed12 x score (r, g, b) sel chromRel
+        let out := if kind = "T" then txCore repaired x score (r, g, b) sel chromRel
+                   else featCore repaired x score (r, g, b) sel chromRel
         match out with
         | some rec => pure ("ok " ++ String.ofList rec.str)
         | none => pure "bad-op window-cuts-interval (outside the modelled domain)")
 ]
+/-- the operations on the code as it is (`txToBed12` / `featToBed12`) -/
+def ops : List (String × Op) := opsFor false
+/-- the operations on the repaired code (switch `drivers/C14.lean` to this table once the fix is in /repo) -/
+def opsRepaired : List (String × Op) := opsFor true
+
 end BioCantor.Driver.Bed
